@@ -1,5 +1,5 @@
 # Registry of implemented checks: the single source for MANIFEST.json and checks.json.
-HOOK_COMMITS = ["163ba9e", "f16c06a"]
+HOOK_COMMITS = ["163ba9e", "f16c06a", "c1acb01"]
 
 ENGINES = [
     {"name": "vcore", "path": "/verif/mc/vcore", "serves_properties": ["*"],
